@@ -54,8 +54,12 @@ class DslProp(PropBase):
         elif kind in ("frac_simplify",):
             from y0.dsl import Fraction, Product
             parts = [gen.expr(1) for _ in range(rng.randint(2, 4))]
-            num = rng.sample(parts, rng.randint(1, len(parts))) + [gen.expr(1) for _ in range(rng.randint(0, 2))]
-            den = rng.sample(parts, rng.randint(1, len(parts))) + [gen.expr(1) for _ in range(rng.randint(0, 1))]
+            def pick():  # shared factors, with repeated factors (multiplicity matters when cancelling) in half of the cases
+                if rng.random() < 0.5:
+                    return rng.choices(parts, k=rng.randint(1, len(parts) + 1))
+                return rng.sample(parts, rng.randint(1, len(parts)))
+            num = pick() + [gen.expr(1) for _ in range(rng.randint(0, 2))]
+            den = pick() + [gen.expr(1) for _ in range(rng.randint(0, 1))]
             def prod(xs):
                 xs = list(xs); rng.shuffle(xs)
                 return xs[0] if len(xs) == 1 else Product(tuple(xs))
@@ -102,7 +106,7 @@ class DslProp(PropBase):
         elif kind == "markov":
             c["a"] = GE.to_tree(gen.expr(depth))
         elif kind in ("canon", "canon_eq", "print"):
-            c["a"] = GE.to_tree(gen.expr(depth))
+            c["a"] = GE.to_tree(tie_family(gen, rng) if rng.random() < 0.25 else gen.expr(depth))
             if kind == "canon":
                 r = rng.random()
                 if r < 0.5:
@@ -269,6 +273,42 @@ def normalise_l2(s: str) -> str:
         items = m.group(2).split(",")
         return m.group(1) + "[" + ",".join(sorted(items, key=lambda x: (x.lstrip("+"), x.startswith("+")))) + "]("
     return re.sub(r"(P|\])\[([+A-Za-z0-9,]+)\]\(", fix, s)
+
+
+def tie_family(gen, rng):
+    """A product whose factors share their sort key (same first child; same population; same summand under different
+    ranges; fractions over the same numerator): the order of the result then rests on the tie-break alone."""
+    from y0.dsl import Fraction, PopulationProbability, Product, Sum, P, Variable
+    names = list(gen.names)
+    first = rng.choice(names)
+    others = [n for n in names if n != first]
+    def plain():
+        extra = rng.sample(others, rng.randint(0, 2))
+        k = rng.randint(0, len(extra))
+        ch = [Variable(first)] + [Variable(n) for n in extra[:k]]
+        pa = [Variable(n) for n in extra[k:]]
+        rng.shuffle(ch)
+        return P(*(ch[:-1] + [ch[-1] | pa if pa else ch[-1]]))
+    pop = Variable(rng.choice(["S", "T"]))
+    def popn():
+        return PopulationProbability(population=pop, distribution=plain().distribution)
+    base = plain()
+    def summed():
+        rs = rng.sample(names, rng.randint(1, 3))
+        return Sum(base if rng.random() < 0.6 else plain(), frozenset(Variable(n) for n in rs))
+    def frac():
+        return Fraction(base if rng.random() < 0.6 else plain(), gen.atom())
+    makers = rng.choice([[plain], [popn], [summed], [frac], [plain, popn, summed], [popn, summed], [plain, summed, frac]])
+    parts = []
+    for _ in range(rng.randint(2, 4)):
+        try:
+            parts.append(rng.choice(makers)())
+        except Exception:  # noqa: BLE001
+            parts.append(plain())
+    if rng.random() < 0.4:
+        parts.append(gen.atom())
+    rng.shuffle(parts)
+    return Product(tuple(parts))
 
 
 def permute(e, rng):
